@@ -1,8 +1,11 @@
 ---------------------------- MODULE MC_Converter ----------------------------
-(* Mode A: the Shannon-expansion algorithm reaches exactly all functions, arity 0..3. *)
-EXTENDS Converter
+(* Mode A: the Shannon-expansion algorithm reaches exactly all functions, arity 0..MaxArity   *)
+(* (3 by default; CONV_N=4 in the thorough tier: all 65 536 functions of four arguments, each *)
+(* reached by exactly one valuation of the 16 generated constants; ~25 s).                    *)
+EXTENDS Converter, IOUtils
+MaxArity == IF "CONV_N" \in DOMAIN IOEnv THEN (CHOOSE k \in 0..4 : ToString(k) = IOEnv.CONV_N) ELSE 3
 VARIABLE n
-Init == n \in 0..3
+Init == n \in 0..MaxArity
 Next == UNCHANGED n
 Complete == ExplodeComplete(n)
 =============================================================================
